@@ -684,3 +684,12 @@ def install_ins(mon):
 
 
 INSTALLERS["ins"] = install_ins
+
+
+def _post_results(mon, fs, job):
+    from . import post
+
+    post.results(mon, fs, job)
+
+
+POST["results"] = _post_results
